@@ -184,6 +184,9 @@ def ctrsbox_pgd(xopt, g, H, projections, delta, d_max_iters=100, d_tol=1e-10, us
 
     # Initial guess of L is norm(Hessian)
     L = np.linalg.norm(H, 2)
+    if L < ZERO_THRESH:
+        # H = 0 (e.g. every residual model is constant), so the model is linear and the step length 1/L is undefined
+        return ctrsbox_linear(xopt, g, projections, delta, d_max_iters=d_max_iters, d_tol=d_tol), g.copy(), 0.0
 
     # trust region is a ball of radius delta around xopt
     trproj = lambda w: pball(w, xopt, delta)
